@@ -317,6 +317,17 @@ class LemmaEngine(Engine):
     """In a lemma program `assert` is an obligation, `assume(...)` a hypothesis; calls of repo
     functions go through their contracts (resolved by the `call_repo` spec function)."""
 
+    def ex_Call(self, node, frame):
+        if isinstance(node.func, ast.Name) and node.func.id == "assume" and isinstance(frame.fsrc, _LemmaSrc):
+            saved = self.spec_mode
+            self.spec_mode = True
+            try:
+                self.assume(self.truthy(self.eval(node.args[0], frame)))
+            finally:
+                self.spec_mode = saved
+            return VNone()
+        return Engine.ex_Call(self, node, frame)
+
     def st_Assert(self, st, frame):
         saved = self.spec_mode
         self.spec_mode = True
@@ -334,6 +345,13 @@ class LemmaEngine(Engine):
     def lookup(self, name, frame, node=None):
         if name in frame.env:
             return frame.env[name]
+        if frame.closure and name in frame.closure:
+            return frame.closure[name]
+        if not isinstance(frame.fsrc, _LemmaSrc):
+            return Engine.lookup(self, name, frame, node)
+        if name in ("Enum", "Decimal"):
+            import enum, decimal
+            return self.world.classes.of_py({"Enum": enum.Enum, "Decimal": decimal.Decimal}[name])
         if name == "assume":
             from .sym import VFunc
 
